@@ -32,6 +32,18 @@ CLAIMED = {
         "The sequential models are the specification. Miri/TSan stages report tool failure as INCONCLUSIVE, never as a violation.",
         "DESIGN.md §6 C20",
     ),
+    "C04": (
+        "runtime monitor: real break_line_single_attempt on generated lists; online check of the debug::Logger trace (every feasible break's badness/penalty/demerits, every new active node) and optimality/feasibility/looseness of the result against an independent evaluator written from the definitions (DP over breakpoint x line count x fitness class, cross-checked by brute-force enumeration of all break subsets on small lists)",
+        "Held on the executions produced: exhaustive lists of length <=6 (quick) / <=7 (thorough) over a 7-item alphabet, 1.3e6 / 3e7 random and hostile lists (kerns, fil glue, discretionaries, penalties +-10000, 1-4 line widths, tolerances, negative adj_demerits, looseness -2..2) and the book excerpts in cmr10 at random widths. Non-monotone instances (overfull(a,b) not upward closed in b) are skipped and counted, as the property states.",
+        "Trusts our evaluator of TeX §817-875, calibrated against all 28 TeX \\tracingparagraphs logs in the repository (4450 feasible breaks, 2302 nodes identical); DP and brute force must agree or the case is INCONCLUSIVE; ties between equal-demerit sequences accepted either way.",
+        "DESIGN.md §6 C04",
+    ),
+    "C15": (
+        "runtime monitor: real HBox::pack on generated lists compared field by field with a transcription of TeX §649-667 (four-element stretch/shrink totals), ratio as exact rational and through the printed form, plus a model-free 'fills exactly' conservation check and the panic oracle",
+        "Held on the executions produced: exhaustive char + 2 (thorough 3) glue nodes from 144 specs x 7 targets, and 6e5 / 6e7 random lists of all node kinds with glue amounts chosen to cancel, targets at natural +- {0, 1sp, shrink, shrink+-1sp, stretch}.",
+        "Trusts our transcription of TeX §649-667, calibrated on all 509 TeX-produced line boxes in the repository's want-files; glue sign is not observable on ds::HBox and is compared in absolute value; Mark/Insertion/Adjust/Math are todo!() in the code and outside the quantifier.",
+        "DESIGN.md §6 C15",
+    ),
 }
 
 NOT_CLAIMED = {}
